@@ -15,6 +15,7 @@ template <class T, size_t C> using svc = nmtools::utl::static_vector<T,C>;
 template <class K, size_t R>
 void ob_c15_shape_pad(const mk_t<K,size_t,R>& s_, const mk_t<K,size_t,2*R>& p_)
 {
+    assume_len<R>(s_); assume_len<2*R>(p_);
     const auto s = s_; const auto p = p_;
     for_<R>([&](auto I){ ASSUME((size_t)rd<I.value>(s) < (1ul<<40)); ASSUME((size_t)rd<I.value>(p) < (1ul<<40)); ASSUME((size_t)rd<R+I.value>(p) < (1ul<<40)); });
     auto r = ix::shape_pad(s,p);
@@ -42,6 +43,7 @@ void ob_c15_shape_pad_len(const std::array<size_t,R>& s_, const svc<size_t,8>& p
 template <class K, size_t R, size_t FIRST, int ZONE>
 void ob_c02_pad_index(const mk_t<K,size_t,R>& t_, const mk_t<K,size_t,R>& s_, const mk_t<K,size_t,2*R>& p_)
 {
+    assume_len<R>(t_); assume_len<R>(s_); assume_len<2*R>(p_);
     const auto t = t_; const auto s = s_; const auto p = p_;
     mk_t<K,size_t,R> idx{}, d{};
     for_<R>([&](auto I){
